@@ -24,7 +24,7 @@ This is a robustness study of a verification harness that you cannot see. The li
 
 Your task: make a realistic change to the library's NON-test source files - the kind of plausible optimisation, refactoring, caching, clean-up or slip a maintainer could commit - that BREAKS this property, such that
  1. the code still compiles and `go test -vet=off -count=1 ./...` (run in {d}) still passes completely, and
- 2. the breakage needs something specific in order to show: a particular interleaving of goroutines, a fault at a particular point, a multi-step sequence of operations or history, an unusual input shape or size, a rarely used option or entry point, or two cooperating sites that each look fine alone. It must NOT be something that ordinary use would expose at once, and it should not be findable by trying a handful of short obvious inputs.
+ 2. the breakage needs something specific in order to show: a fault at a particular point, a multi-step sequence of operations or history, an unusual input shape or size, a rarely used option or entry point, two cooperating sites that each look fine alone, or - only if the property itself speaks about concurrent use - a particular interleaving of goroutines. The breakage must be a violation of THIS property as stated, observable through the public API in single-goroutine use unless the property is about concurrency. It must NOT be something that ordinary use would expose at once, and it should not be findable by trying a handful of short obvious inputs.
 
 Also write a demonstration: one NEW test file named seed_demo_test.go in the directory of the package it tests (untracked; do not edit existing test files) with a test function whose name starts with TestSeedDemo that FAILS with your change and PASSES on the unchanged code. Verify both directions yourself (do NOT use `git stash` - the stash is shared with other worktrees; use `git diff > /tmp/seed/<name>.patch; git apply -R /tmp/seed/<name>.patch; ...; git apply /tmp/seed/<name>.patch` with a file name of your own). If the demonstration needs the race detector, say so in the report and write the test so that `go test -race -run TestSeedDemo` shows it (and mention the word race in the report).
 
